@@ -461,8 +461,14 @@ def discharge(obligations, timeout_s=10.0, seed=0, progress=None, cache=True):
                 keys[idx] = query_key(ob)
             except Exception:  # noqa: BLE001
                 keys[idx] = None
-            if keys[idx] and os.path.exists(os.path.join(CACHE_DIR, keys[idx][:2], keys[idx])):
-                results[idx] = {"verdict": "proved", "time": 0.0, "backend": "cache (the identical query was discharged by an earlier run)"}
+            cpath = os.path.join(CACHE_DIR, keys[idx][:2], keys[idx]) if keys[idx] else None
+            if cpath and os.path.exists(cpath):
+                try:
+                    orig = open(cpath).read().strip() or "z3"
+                except OSError:
+                    orig = "z3"
+                # the identical query was discharged by an earlier run: reported under the back end that discharged it, and counted as a cache hit
+                results[idx] = {"verdict": "proved", "time": 0.0, "backend": orig, "cached": True}
                 continue
         pending.append(idx)
     res_live = _discharge_live(obligations, pending, timeout_s, seed, progress)
